@@ -55,6 +55,11 @@ def ev(n, env):
         if key not in env:
             raise Unsupported("unbound field %s" % key)
         return env[key]
+    if k == "member" and n.get("dk") == "field" and strip(n["base"]).get("k") == "ref":
+        key = strip(n["base"])["decl"] + "." + n["name"]
+        if key not in env:
+            raise Unsupported("unbound field %s" % key)
+        return env[key]
     if k == "cast":
         v = ev(n["e"], env)
         if n.get("ck") == "IntegralToBoolean":
